@@ -249,10 +249,10 @@ class Env(object):
         self.pending = None
 
 
-def run_impl(reqs, bg, chooser, lines=False, max_steps=6000, max_bg_loops=12, eof=False, callbacks=False):
+def run_impl(reqs, bg, chooser, lines=False, max_steps=6000, max_bg_loops=12, eof=False, callbacks=False, fixture=None):
     """One execution of the real code.  chooser(list_of_choices, sched) -> choice.
     Returns dict(trace, stalls, hangs, outcome, fx-derived facts)."""
-    fx = Fixture(reqs, bg, lines, callbacks)
+    fx = (fixture or Fixture)(reqs, bg, lines, callbacks)
     s = fx.sched
     trace = []
     stalls = []      # (thread, where, received_by, woke_after_publication, req)
@@ -368,6 +368,7 @@ def run_impl(reqs, bg, chooser, lines=False, max_steps=6000, max_bg_loops=12, eo
                "cb_log": list(fx.cb_log), "callbacks": callbacks,
                "closed": bool(getattr(fx.conn, "closed", False)),
                "dispatch_count": dict(fx.dispatch_count), "seqs": [q for _, q in fx.sent_requests()],
+               "transit_left": list(getattr(fx.conn, "_replies_in_transit", ())),
                "white": fx.white, "excs": {n: repr(t.exc) for n, t in fx.clients.items() if t.exc is not None}}
         return out
     finally:
@@ -599,13 +600,13 @@ def judge_callbacks(res, reqs):
     return bad
 
 
-def explore_line_preemptions(chk, cfgname, on_result, max_points=None, callbacks=False):
+def explore_line_preemptions(chk, cfgname, on_result, max_points=None, callbacks=False, fixture=None, configs=None):
     """every source line of serve / _dispatch / AsyncResult.__call__ / wait / value ... as the one place where the running thread
     is set aside while the others run: the schedules in which a reader sees a half-finished update"""
-    cfg = CONFIGS[cfgname]
+    cfg = (configs or CONFIGS)[cfgname]
     seen = set()
     ch = line_preempt_chooser(("", -1), 1, seen)
-    res = run_impl(cfg["reqs"], cfg["bg"], ch, lines=True, callbacks=callbacks)
+    res = run_impl(cfg["reqs"], cfg["bg"], ch, lines=True, callbacks=callbacks, fixture=fixture)
     on_result(res, cfg, {"mode": "indices", "config": cfgname, "lines": True, "indices": ch.record, "callbacks": callbacks})
     # a second discovery run with random switching sees the lines of paths the straight run does not take
     rr = random_chooser(random.Random(chk.seed + 5), 0.5)
@@ -618,7 +619,7 @@ def explore_line_preemptions(chk, cfgname, on_result, max_points=None, callbacks
                 seen2.add(tuple(o.info))
         return rr(choices, s)
     spy.record = rr.record
-    res = run_impl(cfg["reqs"], cfg["bg"], spy, lines=True, callbacks=callbacks)
+    res = run_impl(cfg["reqs"], cfg["bg"], spy, lines=True, callbacks=callbacks, fixture=fixture)
     on_result(res, cfg, {"mode": "indices", "config": cfgname, "lines": True, "indices": rr.record, "callbacks": callbacks})
     points = sorted(seen | seen2)
     if max_points is not None and len(points) > max_points:
@@ -628,7 +629,7 @@ def explore_line_preemptions(chk, cfgname, on_result, max_points=None, callbacks
     for pt in points:
         for occ in (1, 2, 3):
             ch = line_preempt_chooser(pt, occ)
-            res = run_impl(cfg["reqs"], cfg["bg"], ch, lines=True, callbacks=callbacks)
+            res = run_impl(cfg["reqs"], cfg["bg"], ch, lines=True, callbacks=callbacks, fixture=fixture)
             on_result(res, cfg, {"mode": "indices", "config": cfgname, "lines": True, "indices": ch.record, "callbacks": callbacks})
             n += 1
             if n % 100 == 0:
